@@ -310,6 +310,20 @@ impl Ignore {
                 }
             }
         };
+        // The absolute base is the absolute path of the directory a matcher
+        // was built for: paths are made absolute by replacing that
+        // directory's prefix with it. A root inherits it from its absolute
+        // parents (which carry the root's own absolute path), every
+        // directory below extends it by its own name.
+        let absolute_base = match self.0.absolute_base {
+            Some(ref base) if !self.0.is_absolute_parent => {
+                match dir.file_name() {
+                    Some(name) => Some(Arc::new(base.join(name))),
+                    None => Some(base.clone()),
+                }
+            }
+            ref base => base.clone(),
+        };
         let ig = IgnoreInner {
             compiled: self.0.compiled.clone(),
             dir: dir.to_path_buf(),
@@ -317,7 +331,7 @@ impl Ignore {
             types: self.0.types.clone(),
             parent: Some(self.clone()),
             is_absolute_parent: false,
-            absolute_base: self.0.absolute_base.clone(),
+            absolute_base,
             explicit_ignores: self.0.explicit_ignores.clone(),
             custom_ignore_filenames: self.0.custom_ignore_filenames.clone(),
             custom_ignore_matcher: custom_ig_matcher,
